@@ -533,6 +533,9 @@ def _workload(tier, rng, shard, nshards, work):
         objs = {}
         for long_form in (True, False):
             text = K.write_point_object(klass, lo, hi, pts, long_form, style, rng.random() < 0.5)
+            if rng.random() < 0.15:
+                text = text.rstrip("\n")  # the last line of a text file need not end in a line break
+                REC.cls("C19:po:no-final-line-break")
             fn = os.path.join(str(work), "po%d.%s" % (k % 3, klass))
             with open(fn, "w", encoding="utf-8") as fd:
                 fd.write(text)
